@@ -18,10 +18,11 @@ GROUP_PROP = {
 }
 
 
-def run(prop, tier, cases, run_case, rule, replay=None, sig_extra=None, nontrivial=None, batch=200):
+def run(prop, tier, cases, run_case, rule, replay=None, sig_extra=None, nontrivial=None, batch=200, rep=None):
     """cases: list of dicts with 'id'; run_case(case) -> {'id', 'ev': [events]} (executed in workers)."""
-    rep = Report(prop, tier)
-    rd = run_dir(prop)
+    collect = rep is not None
+    rep = rep or Report(prop, tier)
+    rd = run_dir(prop + ("-sub" if collect else ""))
     if replay:
         with open(replay) as f:
             cases = [json.load(f)["case"]["case"]]
@@ -66,6 +67,8 @@ def run(prop, tier, cases, run_case, rule, replay=None, sig_extra=None, nontrivi
                             "rename": [ev.get("s"), ev.get("t")], "result": show(ev["res"]), "exc": ev["exc"],
                             "verdicts": {g: verdicts[(t["id"], l, g)] for g in ev["groups"]}})
     shutil.rmtree(rd, ignore_errors=True)
+    if collect:
+        return {"evaluations": n_ev, "nontrivial": nontriv, "traces": len(traces), "verdict_counts": counts}
     return rep.finish({
         "evaluations": n_ev,
         "distinct_nontrivial": len(nontriv),
